@@ -23,21 +23,7 @@ const NP: usize = 40;
 #[kani::stub(alloc::fmt::format, stub_format_nonempty)]
 #[kani::unwind(42)]
 fn bnd40_ff_padding() {
-    let data: [u8; NP] = kani::any();
-    let len: usize = kani::any();
-    kani::assume(len <= NP);
-    let p = &data[..len];
-    let r = extract_payload_ff_padding(p);
-    let run = spec_ff_run(p);
-    match &r {
-        Ok(v) => {
-            assert!(run <= 15, "[C12][C02] a payload ending in more than 15 bytes of 0xFF is rejected");
-            assert!(v.len() == run, "[C12] the padding length is the length of the trailing 0xFF run");
-        }
-        Err(_) => assert!(run > 15, "[C12][C01] a payload ending in at most 15 bytes of 0xFF is accepted"),
-    }
-    kani::cover!(r.is_err());
-    kani::cover!(r.is_ok() && run == 15);
+    ff_padding_case::<NP>();
 }
 
 // @harness id=full_detect_format props=C12,C07,C04 kind=full tier=quick fns=detect_payload_data_format
@@ -110,12 +96,45 @@ fn full_chunkify() {
 #[kani::stub(alloc::fmt::format, stub_format_nonempty)]
 #[kani::unwind(42)]
 fn bnd40_preprocess() {
-    let data: [u8; NP] = kani::any();
+    preprocess_case::<NP>();
+}
+
+// @harness id=bnd40_preprocess_general props=C12,C01,C04 kind=bnd tier=quick bound=payload<=40B fns=preprocess_payload,extract_payload_ff_padding,detect_payload_data_format,chunkify_payload stubs=alloc::fmt::format
+// Any word-aligned format-2 payload with at most 15 bytes of padding is accepted (memory safety incl. the
+// growth of the padding vector).
+#[kani::proof]
+#[kani::stub(alloc::fmt::format, stub_format_nonempty)]
+#[kani::unwind(42)]
+fn bnd40_preprocess_general() {
+    preprocess_general_case::<NP>();
+}
+
+// ---- bodies shared by the quick (<= 40 bytes) and thorough (<= 96 bytes) harnesses
+fn ff_padding_case<const N: usize>() {
+    let data: [u8; N] = kani::any();
+    let len: usize = kani::any();
+    kani::assume(len <= N);
+    let p = &data[..len];
+    let r = extract_payload_ff_padding(p);
+    let run = spec_ff_run(p);
+    match &r {
+        Ok(v) => {
+            assert!(run <= 15, "[C12][C02] a payload ending in more than 15 bytes of 0xFF is rejected");
+            assert!(v.len() == run, "[C12] the padding length is the length of the trailing 0xFF run");
+        }
+        Err(_) => assert!(run > 15, "[C12][C01] a payload ending in at most 15 bytes of 0xFF is accepted"),
+    }
+    kani::cover!(r.is_err());
+    kani::cover!(r.is_ok() && run == 15);
+}
+
+fn preprocess_case<const N: usize>() {
+    let data: [u8; N] = kani::any();
     let n: usize = kani::any();
     let pad: usize = kani::any();
     kani::assume(n <= 3 && pad <= 10);
     let len = 10 * n + pad;
-    kani::assume(len <= NP);
+    kani::assume(len <= N);
     let p = &data[..len];
     // layout assumptions (domain of the property)
     kani::assume(n == 0 || p[10 * n - 1] != 0xFF);
@@ -137,16 +156,10 @@ fn bnd40_preprocess() {
     }
 }
 
-// @harness id=bnd40_preprocess_general props=C12,C01,C04 kind=bnd tier=quick bound=payload<=40B fns=preprocess_payload,extract_payload_ff_padding,detect_payload_data_format,chunkify_payload stubs=alloc::fmt::format
-// Any word-aligned format-2 payload with at most 15 bytes of padding is accepted (memory safety incl. the
-// growth of the padding vector).
-#[kani::proof]
-#[kani::stub(alloc::fmt::format, stub_format_nonempty)]
-#[kani::unwind(42)]
-fn bnd40_preprocess_general() {
-    let data: [u8; NP] = kani::any();
+fn preprocess_general_case<const N: usize>() {
+    let data: [u8; N] = kani::any();
     let len: usize = kani::any();
-    kani::assume(len >= 1 && len <= NP);
+    kani::assume(len >= 1 && len <= N);
     let p = &data[..len];
     let run = spec_ff_run(p);
     kani::assume(run <= 15);
@@ -154,4 +167,20 @@ fn bnd40_preprocess_general() {
     kani::assume(if run > 9 { (len - run) % 10 == 0 } else { len % 10 <= run });
     let r = preprocess_payload(p);
     assert!(r.is_ok(), "[C12][C01] a payload with at most 15 bytes of 0xFF padding is accepted");
+}
+
+// @harness id=bnd96_ff_padding props=C12,C01,C02,C04 kind=bnd tier=thorough bound=payload<=96B fns=extract_payload_ff_padding stubs=alloc::fmt::format
+#[kani::proof]
+#[kani::stub(alloc::fmt::format, stub_format_nonempty)]
+#[kani::unwind(98)]
+fn bnd96_ff_padding() {
+    ff_padding_case::<96>();
+}
+
+// @harness id=bnd96_preprocess_general props=C12,C01,C04 kind=bnd tier=thorough bound=payload<=96B fns=preprocess_payload,extract_payload_ff_padding,detect_payload_data_format,chunkify_payload stubs=alloc::fmt::format
+#[kani::proof]
+#[kani::stub(alloc::fmt::format, stub_format_nonempty)]
+#[kani::unwind(98)]
+fn bnd96_preprocess_general() {
+    preprocess_general_case::<96>();
 }
